@@ -7,7 +7,7 @@
    4. [normalize]              : what a parser can observe of a tree (adjacent texts merge, empty texts vanish);
    5. [tree_view]              : HtmlTreeView._render / summary / content / simple_value / complex_value /
                                   object_key / tooltip / should_collapse / needs_summary on dict / list / object / leaf values;
-   6. [run]                    : the wire interface used by the harness.
+   6. [run_content]            : the wire interface for the content (Model/HtmlDoc.v run adds the whole document).
 
    Strings are lists of code points.  What [utils.format], [repr] and [camel_to_snake] return is carried by the
    value ([fmt], [rep], [cname]): the model and the theorems are parametric in those strings (any string at all). *)
@@ -436,6 +436,12 @@ Fixpoint is_prefix (p l : list key) : bool :=
 Fixpoint assoc_key {A} (k : key) (l : list (key * A)) : option A :=
   match l with [] => None | (k', a) :: r => if key_eqb k k' then Some a else assoc_key k r end.
 
+(* complex_value: the keys to show, in order: include_keys (those present, in the order given, duplicates kept) or all keys,
+   minus exclude_keys *)
+Definition ordered_keys (incl excl : option (list key)) (present : list key) : list key :=
+  let order0 := match incl with None => present | Some l => filter (fun k => key_mem k present) l end in
+  match excl with None => order0 | Some l => filter (fun k => negb (key_mem k l)) order0 end.
+
 Definition cname_of (v : pv) : str := match v with PLeaf _ _ c _ _ _ => c | PNode _ _ c _ _ => c end.
 Definition fmt_of (v : pv) : str := match v with PLeaf _ _ _ _ _ f => f | PNode _ _ _ f _ => f end.
 Definition is_simple (v : pv) : bool := match v with PLeaf LOther _ _ _ _ _ => false | PLeaf _ _ _ _ _ _ => true | PNode _ _ _ _ _ => false end.
@@ -522,9 +528,7 @@ Section TreeView.
                     if label
                     then El s_tr [] [] [El s_td [] [] (key_cell (fst kc) cpath); El s_td [] [] [tv [] (None, None) None cpath cl' None None (snd kc)]]
                     else tv [] (None, None) (Some (fst kc)) cpath cl' None None (snd kc))) items in
-          let present := map fst items in
-          let order0 := match incl with None => present | Some l => filter (fun k => key_mem k present) l end in
-          let order := match excl with None => order0 | Some l => filter (fun k => negb (key_mem k l)) order0 end in
+          let order := ordered_keys incl excl (map fst items) in
           let kids := flat_map (fun k => match assoc_key k rendered with Some h => [h] | None => [] end) order in
           El s_div [] (class_attr ([s_complex_value; cname] ++ ccss))
              (match kids with
@@ -618,7 +622,7 @@ Fixpoint e_hnode (t : hnode) : tr :=
 
 Definition no_metab (l : str) : bool := forallb (fun c => negb (is_meta4 c)) l && amps_ok l.
 
-Definition run (c : tr) : tr :=
+Definition run_content (c : tr) : tr :=
   match c with
   | L [I 0%Z; o; v] =>
       match d_opts o, d_pv 100 v with
